@@ -91,6 +91,7 @@ struct Ctx {
   int build = 1;            // CO_SSDO_N of this binary
   bool thorough = false;
   bool logging = false;     // decoded-case log wanted (replay / samples)
+  bool echo = false;        // print log lines as they are produced (so they survive a sanitizer abort)
   bool nontrivial = false;  // set by the case when the property's NT rule holds
   std::vector<std::string> log;
   std::map<std::string, uint64_t> *classes = nullptr;
